@@ -1424,7 +1424,8 @@ FormatterToXML::writeNormalizedChars(
     {
         const XalanDOMChar  c = ch[i];
 
-        if (XalanUnicode::charCR == c &&
+        if (isCData == false &&
+            XalanUnicode::charCR == c &&
             i + 1 < end &&
             XalanUnicode::charLF == ch[i + 1])
         {
@@ -1436,10 +1437,17 @@ FormatterToXML::writeNormalizedChars(
         {
             outputLineSep();
         }
-        else if(isCData == true && c > m_maxCharacter)
+        else if(isCData == true &&
+                (c > m_maxCharacter ||
+                 XalanUnicode::charCR == c ||
+                 (m_isXML1_1 == true &&
+                  (XalanUnicode::charNEL == c ||
+                   XalanUnicode::charLSEP == c))))
         {
             // Close the CDATA section, write the character as a
-            // character reference, and open a new section.
+            // character reference, and open a new section.  A parser
+            // would turn a literal carriage return (in XML 1.1, also
+            // NEL and LSEP) into a line feed.
             accumContent(s_dtdCDATACloseString, 0, s_dtdCDATACloseStringLength);
 
             // This needs to go into a function... 
